@@ -42,6 +42,41 @@ CHECKS = {
         design="8 C18"),
 }
 
+CHECKS.update({
+    "C05": dict(
+        text="Contract proof per production action (59 rules: the action builds exactly the node the rule prescribes, operand order and kinds, from "
+             "slot values satisfying their nonterminal invariants) + exhaustive check of the representation invariant of the generated LR table "
+             "(every precedence-resolved entry agrees with the OData 5.1.1.14 table written independently) ; whole-pipeline pairs/triples of "
+             "operators only as a labelled bounded stand-in.",
+        note=COMMON_NOTE + "SLY's driver executes the table and calls the actions with its rule's values; the Aho-Johnson-Ullman result connecting "
+             "precedence-resolved conflicts to tree shape is cited, not mechanised; _reverse_attributes body covered by a bounded stand-in.",
+        technique="contracts on grammar actions (pyvc -> z3) + exhaustive finite check of the LR table invariant; bounded pipeline stand-in labelled",
+        design="8 C05"),
+    "C06": dict(
+        text="Regular-language obligations decided exactly on the rule table of the tree under check (ABNF language of each literal kind included in its "
+             "token rule, no earlier alternative can take a prefix, the rule cannot overrun the literal, upper(duration) inside ast.DURATION_PATTERN), "
+             "token-action value contracts (pyvc -> z3), py_val contracts (Boolean by language image; Duration formula over the reals; the rest single "
+             "calls into assumed converters).",
+        note="CPython's regex parser and Unicode tables are the source of the languages; `re` first-alternative / leftmost-greedy semantics assumed (sampled, bounded); "
+             "string unescaping by the per-block homomorphism lemma (blocks proved, composition cross-checked bounded); int/float/fromisoformat/isoparse/UUID contracts assumed; float = real.",
+        technique="exact automata decision procedure for regular-language obligations + contracts on token actions discharged by z3",
+        design="8 C06"),
+    "C10": dict(
+        text="Contract proof that every repo-owned callback the SLY driver can invoke (59 production actions, 31 token rules, both error hooks, "
+             "_function_call, _explode_attr) returns a value satisfying its nonterminal invariant or raises a library exception: every attribute/index/arity "
+             "safety obligation discharged, frame clause (no state written) gives determinism, recursion depth from the call graph.",
+        note=COMMON_NOTE + "SLY's driver and `re` terminate and call exactly these hooks with values satisfying the slot invariants: termination of the whole parse is NOT proved. "
+             "Body of _reverse_attributes: bounded stand-in.",
+        technique="contracts with nonterminal invariants on the real grammar callbacks (pyvc) discharged by z3",
+        design="8 C10"),
+    "C11": dict(
+        text="Contract proof of ODataParser._function_call against an independent copy of the OData function table: returns Call iff name and count match, "
+             "otherwise the typed exception with exact payload fields (one path per table row); call productions keep argument order.",
+        note=COMMON_NOTE + "ARITY_TABLE (33 rows) written from the OData specification.",
+        technique="contracts + VC generation over the real source (pyvc) discharged by z3",
+        design="8 C11"),
+})
+
 NOT_APPLICABLE = {
     "C02": "the rows a Django QuerySet returns are decided by Django's SQL compiler and SQLite, not by any function in /repo; no contract on repo code can express it (DESIGN section 9)",
     "C03": "row semantics are decided by SQLAlchemy's compiler (operator rendering, contains escaping, boolean rendering) and SQLite (DESIGN section 9)",
